@@ -1,0 +1,15 @@
+//go:build verif
+
+package config
+
+// Contracts checked by /verif/govc (comment-only file; build tag verif).
+
+// ---------------------------------------------------------------------------
+// C19 — the --disable-config-keywords list is split on commas with the blanks
+// around each item removed (utils.Split), and that list is what the
+// configuration carries
+//@ func CreateWithConfig
+//@   props C19
+//@   at call utils.Split#1 assert list: $arg0 == opt.DisableConfigKeywords && $arg1 == ","
+//@   lemma carried: result.1 == nil ==> result.0.DisableKeywords == disableKeywords
+//@ end
